@@ -28,6 +28,7 @@ pub mod cli {
 }
 
 mod util;
+mod c01;
 mod c17;
 mod c18;
 mod c19;
@@ -49,6 +50,8 @@ fn main() {
     std::panic::set_hook(Box::new(|_| {}));
     let mut w = util::Out::new(&out);
     match prop {
+        "C01" | "C16" => c01::run_c01(&mut w, thorough, seed, prop),
+        "C05" => c01::run_c05(&mut w, thorough, seed),
         "C17" => c17::run(&mut w, thorough, seed),
         "C18" => c18::run(&mut w, thorough, seed),
         "C19" => c19::run(&mut w, thorough, seed, false),
